@@ -44,28 +44,40 @@ const TYPES: [SignType; 11] = [
 ];
 
 fn state_idx(s: State) -> usize {
-    let mut i = 0;
-    while i < 13 {
-        if STATES[i] == s {
-            return i;
-        }
-        i += 1;
+    match s {
+        State::Unconfigured => 0,
+        State::ConfigInProgress => 1,
+        State::ConfigReceived => 2,
+        State::ConfigFailed => 3,
+        State::PixelsInProgress => 4,
+        State::PixelsReceived => 5,
+        State::PixelsFailed => 6,
+        State::PageLoaded => 7,
+        State::PageLoadInProgress => 8,
+        State::PageShown => 9,
+        State::PageShowInProgress => 10,
+        State::ShowingPages => 11,
+        State::ReadyToReset => 12,
+        #[allow(unreachable_patterns)]
+        _ => 13,
     }
-    13
 }
 fn type_idx(t: Option<SignType>) -> usize {
     match t {
         None => 11,
-        Some(t) => {
-            let mut i = 0;
-            while i < 11 {
-                if TYPES[i] == t {
-                    return i;
-                }
-                i += 1;
-            }
-            12
-        }
+        Some(SignType::Max3000Front112x16) => 0,
+        Some(SignType::Max3000Front98x16) => 1,
+        Some(SignType::Max3000Side90x7) => 2,
+        Some(SignType::Max3000Rear30x10) => 3,
+        Some(SignType::Max3000Rear23x10) => 4,
+        Some(SignType::Max3000Dash30x7) => 5,
+        Some(SignType::HorizonFront160x16) => 6,
+        Some(SignType::HorizonFront140x16) => 7,
+        Some(SignType::HorizonSide96x8) => 8,
+        Some(SignType::HorizonRear48x16) => 9,
+        Some(SignType::HorizonDash40x12) => 10,
+        #[allow(unreachable_patterns)]
+        Some(_) => 12,
     }
 }
 
@@ -122,12 +134,17 @@ fn any_sign_opt(pend: &[u8; PEND_MAX], with_inv: bool, pend_mode: u8, allow_page
 fn inv(s: &VirtualSign<'_>) -> bool {
     let receiving = s.state == State::ConfigInProgress || s.state == State::PixelsInProgress;
     // counter hygiene: outside a transfer (and outside the limbo state an abandoned transfer is left in by
-    // StartReset) nothing is buffered and nothing is counted
-    let hygiene = receiving || s.state == State::ReadyToReset || (s.data_chunks == 0 && s.pending_data.is_empty());
+    // StartReset) nothing is counted; bytes are buffered only during a pixel transfer (or in that limbo state)
+    let hygiene = (receiving || s.state == State::ReadyToReset || s.data_chunks == 0)
+        && (s.state == State::PixelsInProgress || s.state == State::ReadyToReset || s.pending_data.is_empty());
     let blank = s.state != State::Unconfigured
         || (s.pages.is_empty() && s.pending_data.is_empty() && s.data_chunks == 0 && s.width == 0 && s.height == 0 && s.sign_type.is_none());
     let pages_ok = s.pages.is_empty() || (s.pages[0].width() == s.width && s.pages[0].height() == s.height && s.pages[0].as_bytes().len() == padded_len(s.width, s.height));
-    hygiene && blank && pages_ok
+    // pages only exist once a pixel transfer has been started (the configuration states never hold pages, so a
+    // configuration block can never change the size under stored pages)
+    let config_phase = s.state == State::Unconfigured || s.state == State::ConfigInProgress || s.state == State::ConfigReceived || s.state == State::ConfigFailed;
+    let no_pages_in_config_phase = !config_phase || s.pages.is_empty();
+    hygiene && blank && pages_ok && no_pages_in_config_phase
 }
 
 /// kind 0..=9; the data of a SendData message is a prefix of `arr`
@@ -143,7 +160,10 @@ fn any_message<'a>(arr: &'a [u8; DATA_MAX]) -> Message<'a> {
             kani::assume(n <= DATA_MAX);
             match Data::try_new(&arr[..n]) {
                 Ok(d) => Message::SendData(Offset(a), d),
-                Err(_) => panic!("try_new"),
+                Err(e) => {
+            core::mem::forget(e); // never drop an error value in a harness: its drop glue drags in every dyn Error
+            panic!("try_new")
+        }
             }
         }
         1 => Message::DataChunksSent(ChunkCount(a)),
@@ -159,7 +179,10 @@ fn any_message<'a>(arr: &'a [u8; DATA_MAX]) -> Message<'a> {
             kani::assume(n <= 3);
             match Data::try_new(&arr[..n]) {
                 Ok(d) => Message::Unknown(flipdot_core::Frame::new(Address(a), flipdot_core::MsgType(kani::any()), d)),
-                Err(_) => panic!("try_new"),
+                Err(e) => {
+            core::mem::forget(e); // never drop an error value in a harness: its drop glue drags in every dyn Error
+            panic!("try_new")
+        }
             }
         }
     }
@@ -189,28 +212,6 @@ fn c12_step_never_panics() {
     core::mem::forget(r);
 }
 
-/// C12 at bus level: a bus of two arbitrary signs processes any message without panicking.
-#[kani::proof]
-#[kani::unwind(14)]
-fn c12_bus_never_panics_2() {
-    let pend1: [u8; PEND_MAX] = kani::any();
-    let pend2: [u8; PEND_MAX] = kani::any();
-    let arr: [u8; DATA_MAX] = kani::any();
-    // bus-level composition: the signs' buffers are kept concrete in length (0 and 16 bytes) and data chunks are 0 or 16
-    // bytes long; the per-sign behaviour for all buffer/chunk lengths is the subject of c12_step_never_panics
-    let mut bus = VirtualSignBus { signs: vec![any_sign_opt(&pend1, false, 0, false), any_sign_opt(&pend2, false, 1, false)] };
-    let m = any_message(&arr);
-    if let Message::SendData(_, d) = &m {
-        kani::assume(d.get().len() == 0 || d.get().len() == 16);
-    }
-    let r = bus.process_message(m);
-    match &r {
-        Ok(x) => kani::cover!(x.is_some(), "cov_reply"),
-        Err(_) => panic!("virtual bus returned an error"),
-    }
-    core::mem::forget(r);
-}
-
 /// C12 (configuration digestion): any 16-byte block in ConfigInProgress is digested without overflow.
 #[kani::proof]
 #[kani::unwind(18)]
@@ -220,7 +221,10 @@ fn c12_config_block_arbitrary_fields() {
     sign.state = State::ConfigInProgress;
     let m = match Data::try_new(&block[..]) {
         Ok(d) => Message::SendData(Offset(0), d),
-        Err(_) => panic!("try_new"),
+        Err(e) => {
+            core::mem::forget(e); // never drop an error value in a harness: its drop glue drags in every dyn Error
+            panic!("try_new")
+        }
     };
     let r = sign.process_message(&m);
     assert!(r.is_none());
@@ -277,17 +281,19 @@ fn reply_of(r: &Option<Message<'_>>) -> Reply {
     match r {
         None => Reply::None,
         Some(Message::ReportState(Address(a), s)) => Reply::Report(*a, state_idx(*s)),
-        Some(Message::AckOperation(Address(a), o)) => {
-            let mut i = 0;
-            let mut k = 6;
-            while i < 6 {
-                if OPS[i] == *o {
-                    k = i;
-                }
-                i += 1;
-            }
-            Reply::Ack(*a, k)
-        }
+        Some(Message::AckOperation(Address(a), o)) => Reply::Ack(
+            *a,
+            match o {
+                Operation::ReceiveConfig => 0,
+                Operation::ReceivePixels => 1,
+                Operation::ShowLoadedPage => 2,
+                Operation::LoadNextPage => 3,
+                Operation::StartReset => 4,
+                Operation::FinishReset => 5,
+                #[allow(unreachable_patterns)]
+                _ => 6,
+            },
+        ),
         Some(_) => Reply::Ack(0xFFFF, 99),
     }
 }
@@ -522,63 +528,114 @@ fn c14_foreign_and_idle_messages_change_nothing() {
     core::mem::forget(r);
 }
 
-/// C14 (bus level, 2 signs with distinct addresses): the reply is what the addressed sign alone would reply and
-/// carries its address; the other sign is untouched by addressed messages; absent address => no reply, no change.
-#[kani::proof]
-#[kani::unwind(14)]
-fn c14_bus_isolation_2() {
-    let pend1: [u8; PEND_MAX] = kani::any();
-    let pend2: [u8; PEND_MAX] = kani::any();
-    let arr: [u8; DATA_MAX] = kani::any();
-    // buffers concrete in length (0 / 16 bytes), chunks of 0 or 16 bytes: see c12_bus_never_panics_2
-    let s1 = any_sign_opt(&pend1, true, 0, false);
-    let s2 = any_sign_opt(&pend2, true, 1, false);
-    kani::assume(s1.address != s2.address);
-    let (b1, b2) = (snap(&s1), snap(&s2));
-    let m = any_message(&arr);
-    if let Message::SendData(_, d) = &m {
-        kani::assume(d.get().len() == 0 || d.get().len() == 16);
+// ---- bus level, modular: the real VirtualSignBus::process_message is checked against the CONTRACT of the sign step
+// (the callee's body is replaced by a stub that behaves like any sign allowed by the sign-level obligations):
+//   (1) a message addressed to another address: no reply, nothing changes      [c14_foreign_and_idle_messages_change_nothing]
+//   (2) a message addressed to this sign: any reply, but it carries this sign's address; the sign may change   [c13_step_refines_spec]
+//   (3) an unaddressed message (SendData, DataChunksSent, Unknown): no reply; the sign may change              [c13_step_refines_spec]
+// Ghost encoding: `data_chunks` counts deliveries to a sign, `width` counts deliveries that were allowed to change it.
+static mut STUB_REPLY_KIND: [u8; 4] = [0; 4];
+#[allow(unsafe_code)]
+fn stub_sign_step<'s, 'a>(sign: &mut VirtualSign<'s>, message: &Message<'_>) -> Option<Message<'a>>
+where
+    's: 's,
+{
+    sign.data_chunks = sign.data_chunks.wrapping_add(1);
+    let target: Option<u16> = match message {
+        Message::Hello(a) | Message::QueryState(a) | Message::Goodbye(a) | Message::PixelsComplete(a) => Some(a.0),
+        Message::RequestOperation(a, _) | Message::AckOperation(a, _) | Message::ReportState(a, _) => Some(a.0),
+        _ => None,
+    };
+    match target {
+        Some(t) if t != sign.address.0 => None, // (1)
+        Some(_) => {
+            sign.width += 1; // (2) may change
+            let k: u8 = kani::any();
+            match k {
+                0 => None,
+                1 => Some(Message::ReportState(sign.address, STATES[(kani::any::<u8>() % 13) as usize])),
+                _ => Some(Message::AckOperation(sign.address, OPS[(kani::any::<u8>() % 6) as usize])),
+            }
+        }
+        None => {
+            sign.width += 1; // (3) may change, never replies
+            None
+        }
     }
+}
+
+/// C14 + C12 at bus level, population of 4 signs with pairwise distinct addresses (1..3 signs are the same statement
+/// with fewer loop iterations): an addressed message is delivered until the addressee replies, touches no other sign's
+/// state, the reply carries the addressee's address; an absent address gets no reply and changes nothing; unaddressed
+/// messages reach every sign and get no reply; the bus never fails.
+#[kani::proof]
+#[kani::unwind(6)]
+#[kani::stub(VirtualSign::process_message, stub_sign_step)]
+fn c14_bus_isolation_modular_4() {
+    let arr: [u8; DATA_MAX] = kani::any();
+    let addrs: [u16; 4] = kani::any();
+    kani::assume(addrs[0] != addrs[1] && addrs[0] != addrs[2] && addrs[0] != addrs[3] && addrs[1] != addrs[2] && addrs[1] != addrs[3] && addrs[2] != addrs[3]);
+    let n: usize = kani::any();
+    kani::assume(n >= 1 && n <= 4);
+    let mut signs = Vec::with_capacity(4);
+    let mut i = 0;
+    while i < n {
+        signs.push(VirtualSign::new(Address(addrs[i]), if kani::any() { PageFlipStyle::Automatic } else { PageFlipStyle::Manual }));
+        i += 1;
+    }
+    let mut bus = VirtualSignBus { signs };
+    let m = any_message(&arr);
     let target: Option<u16> = match &m {
         Message::Hello(a) | Message::QueryState(a) | Message::Goodbye(a) | Message::PixelsComplete(a) => Some(a.0),
         Message::RequestOperation(a, _) | Message::AckOperation(a, _) | Message::ReportState(a, _) => Some(a.0),
         _ => None,
     };
-    let cfg = cfg_of(&arr);
-    let (w1, r1) = spec_step(&b1, &m, cfg);
-    let (w2, r2) = spec_step(&b2, &m, cfg);
-    let mut bus = VirtualSignBus { signs: vec![s1, s2] };
     let r = match bus.process_message(m) {
         Ok(r) => r,
-        Err(_) => panic!("virtual bus returned an error"),
+        Err(e) => {
+            core::mem::forget(e);
+            panic!("virtual bus returned an error")
+        }
     };
-    let (a1, a2) = (snap(&bus.signs[0]), snap(&bus.signs[1]));
+    let reply_addr: Option<u16> = match &r {
+        Some(Message::ReportState(a, _)) | Some(Message::AckOperation(a, _)) => Some(a.0),
+        Some(_) => Some(0xFFFF),
+        None => None,
+    };
+    let mut j = 0;
+    let mut addressee_present = false;
+    while j < n {
+        let s = &bus.signs[j];
+        let is_addressee = target == Some(s.address.0);
+        if is_addressee {
+            addressee_present = true;
+        }
+        match target {
+            Some(_) => {
+                // only the addressee may have been changed (ghost: width counts permitted changes)
+                assert!(s.width == if is_addressee { 1 } else { 0 });
+            }
+            None => {
+                assert!(s.width == 1 && s.data_chunks == 1); // delivered to every sign exactly once
+            }
+        }
+        assert!(s.data_chunks <= 1); // nobody sees a message twice
+        j += 1;
+    }
     match target {
-        Some(t) if t == b1.address => {
-            assert!(a2 == b2); // the other sign is untouched
-            assert!(a1 == w1 && reply_of(&r) == r1);
+        Some(t) => {
+            if addressee_present {
+                assert!(reply_addr.is_none() || reply_addr == Some(t)); // a reply comes only from the addressed sign
+            } else {
+                assert!(r.is_none()); // nobody has that address: no reply
+            }
         }
-        Some(t) if t == b2.address => {
-            assert!(a1 == b1);
-            assert!(a2 == w2 && reply_of(&r) == r2);
-        }
-        Some(_) => {
-            assert!(r.is_none() && a1 == b1 && a2 == b2); // nobody has that address
-        }
-        None => {
-            // unaddressed message: every sign steps on its own, nobody replies
-            assert!(r.is_none());
-            assert!(a1 == w1 && a2 == w2);
-        }
+        None => assert!(r.is_none()),
     }
-    match reply_of(&r) {
-        Reply::Report(a, _) | Reply::Ack(a, _) => assert!(Some(a) == target),
-        Reply::None => {}
-    }
-    kani::cover!(target == Some(b2.address) && r.is_some(), "cov_second_sign_replies");
-    kani::cover!(target.is_some() && target != Some(b1.address) && target != Some(b2.address), "cov_absent_address");
-    kani::cover!(target.is_none() && b1.state == PIX_PROG && b2.state == PIX_PROG, "cov_both_mid_transfer");
-    kani::cover!(target.is_none() && b1.state == CFG_PROG && b2.state == PIX_PROG && a1.chunks == 1 && a2.n_pages == 1, "cov_config_and_pixels_at_once");
+    kani::cover!(n == 4 && target == Some(addrs[3]) && r.is_some(), "cov_last_sign_replies");
+    kani::cover!(n == 4 && target.is_some() && !addressee_present, "cov_absent_address");
+    kani::cover!(n == 1 && target.is_none(), "cov_single_sign_unaddressed");
+    kani::cover!(n == 3 && target == Some(addrs[0]) && r.is_none(), "cov_addressee_silent");
     core::mem::forget(r);
 }
 
@@ -595,7 +652,10 @@ fn c19_virtual_sign_derives_dimensions() {
     sign.state = State::ConfigInProgress;
     let m = match Data::try_new(t.to_bytes()) {
         Ok(d) => Message::SendData(Offset(0), d),
-        Err(_) => panic!("try_new"),
+        Err(e) => {
+            core::mem::forget(e); // never drop an error value in a harness: its drop glue drags in every dyn Error
+            panic!("try_new")
+        }
     };
     let _ = sign.process_message(&m);
     assert!((sign.width, sign.height) == t.dimensions());
